@@ -133,16 +133,17 @@ def groupsPart (c : Cfg) (fs : FS) (gs : List GroupCfg) : FS × Option AErr :=
     | none => (fs1, some .parse)
     | some old => liftE (writeBack c fs1 groupPath (writeGroups (old ++ gs.map groupToGroupEntry)))
 
-/-- one iteration of the home-directory loop -/
+/-- one iteration of the home-directory loop (`targetHomedir := filepath.Clean(ue.HomeDir)`) -/
 def homeStep (c : Cfg) (fs : FS) (u : User) : FS × Option AErr :=
   if u.home = devNull then (fs, none) else
-  match (step c fs (.stat u.home)).2 with
+  let home := clean u.home
+  match (step c fs (.stat home)).2 with
   | .ok (.stat s) => if s.isDir then (fs, none) else (fs, some .homeNotDir)
   | .err .notExist =>
     liftE <|
-      andThen (act c fs (.mkdirAll (dir u.home) homeParentPerm)) fun fs1 =>
-      andThen (act c fs1 (.mkdir u.home homePerm)) fun fs2 =>
-      act c fs2 (.chown u.home u.uid u.gid)
+      andThen (act c fs (.mkdirAll (dir home) homeParentPerm)) fun fs1 =>
+      andThen (act c fs1 (.mkdir home homePerm)) fun fs2 =>
+      act c fs2 (.chown home u.uid u.gid)
   | .err e => (fs, some (.fs e))
   | _ => (fs, none)
 
@@ -201,10 +202,14 @@ def unixToFileMode (perms : Nat) : Nat :=
     ||| (if perms.testBit 10 then modeSetgid else 0)
     ||| (if perms.testBit 9 then modeSticky else 0)
 
+/-- what `fs.FileMode(perms)` is: the same bit pattern.  This is what the code passed to `Chmod` /
+`MkdirAll` before the repair of F13b (0o4000/0o2000/0o1000 are not `ModeSetuid`/`ModeSetgid`/
+`ModeSticky`, so the set-id and sticky bits never reached the layer). -/
+def permModeOld (perms : Nat) : Nat := perms
+
 /-- the argument the code passes to `Chmod` / `MkdirAll` for declared permissions `perms`:
-`fs.FileMode(perms)` — the same bit pattern (finding F13b: 0o4000/0o2000/0o1000 are not
-`ModeSetuid`/`ModeSetgid`/`ModeSticky`) -/
-def permMode (perms : Nat) : Nat := perms
+`permissionsToFileMode(perms)` -/
+def permMode (perms : Nat) : Nat := unixToFileMode perms
 
 /-- `mutatePermissionsDirect` -/
 def mutatePermissionsDirect (c : Cfg) (fs : FS) (path : Text) (perms uid gid : Nat) : FS × Option Err :=
@@ -407,17 +412,17 @@ def ancestors (p : Text) : List Text :=
 /-- home directories: `earlier` are the homes processed before this entry -/
 def homeFails (c : Cfg) (pre post : FS) (earlier : List Text) (u : User) : List Text :=
   if u.home = devNull then [] else
-  match follow c post u.home with
+  match follow c post (clean u.home) with
   | none => [tr "home-missing"]
   | some i =>
     let n := post.node i
     if !n.dir then [tr "home-notdir"] else
-    let existed := (follow c pre u.home).isSome || earlier.any (fun h => isAncestorOrSelf u.home h)
+    let existed := (follow c pre (clean u.home)).isSome || earlier.any (fun h => isAncestorOrSelf (clean u.home) (clean h))
     if existed then [] else
     (if unixPerm n.mode = 0o700 ∧ n.mode.testBit 31 then [] else [tr "home-mode"]) ++
     (if ownerOK n u.uid u.gid then [] else [tr "home-owner"]) ++
-    (ancestors u.home).flatMap fun a =>
-      if (follow c pre a).isSome || earlier.any (fun h => isAncestorOrSelf a h) then [] else
+    (ancestors (clean u.home)).flatMap fun a =>
+      if (follow c pre a).isSome || earlier.any (fun h => isAncestorOrSelf a (clean h)) then [] else
       match follow c post a with
       | none => [tr "parent-missing"]
       | some j => if unixPerm (post.node j).mode = 0o755 ∧ (post.node j).dir then [] else [tr "parent-mode"]
